@@ -143,44 +143,44 @@ type Exec struct {
 	trace   []Decision
 	pending [][]Decision
 
-	nameCtr  int
-	objCtr   int
-	tokCtr   int
-	inputs   []*InputVar
-	globals  map[*ssa.Global]*Object
-	epoch    int
-	frameOn  bool
-	frameLbl string
-	allow    map[*Object]bool
-	unwind   int
-	cases    map[string]int64
-	harness  string
-	depth    int
-	instrs   int64
-	budget   int64
-	stats    *PathStats
-	mapOrder bool
-	unkFeas  int
-	curFn    []*ssa.Function
-	tokLitEq map[string]Bool
-	tokOvfAx map[int]bool
-	assumeN  int
-	ufs      map[string]bool
-	roundMemo map[string]Float // floor/ceil/trunc/round of an identical real term is the identical Int variable
-	stubs    map[string]bool
-	timeoutMs int
-	repoPrefix string
-	known    map[string]bool
-	guard    *Bool // inside an if-converted region: obligations hold under this guard
-	concrete map[string]string // translator-validation mode: concrete inputs
-	traceOut []string
-	inInit   bool
-	deadline time.Time
-	relaxed  bool // floats are reals with rounding-error terms (see relaxed.go)
-	opaque    bool // structure-only: float operations are uninterpreted functions
-	rerrArgs  []string
+	nameCtr     int
+	objCtr      int
+	tokCtr      int
+	inputs      []*InputVar
+	globals     map[*ssa.Global]*Object
+	epoch       int
+	frameOn     bool
+	frameLbl    string
+	allow       map[*Object]bool
+	unwind      int
+	cases       map[string]int64
+	harness     string
+	depth       int
+	instrs      int64
+	budget      int64
+	stats       *PathStats
+	mapOrder    bool
+	unkFeas     int
+	curFn       []*ssa.Function
+	tokLitEq    map[string]Bool
+	tokOvfAx    map[int]bool
+	assumeN     int
+	ufs         map[string]bool
+	roundMemo   map[string]Float // floor/ceil/trunc/round of an identical real term is the identical Int variable
+	stubs       map[string]bool
+	timeoutMs   int
+	repoPrefix  string
+	known       map[string]bool
+	guard       *Bool             // inside an if-converted region: obligations hold under this guard
+	concrete    map[string]string // translator-validation mode: concrete inputs
+	traceOut    []string
+	inInit      bool
+	deadline    time.Time
+	relaxed     bool // floats are reals with rounding-error terms (see relaxed.go)
+	opaque      bool // structure-only: float operations are uninterpreted functions
+	rerrArgs    []string
 	noSubnormal bool // instance assumption: no non-zero subnormal result of a multiplication / division (inputs are 0 or >= 1e-200 in magnitude, constants moderate)
-	relaxedUF bool // rounding error as an uninterpreted function of the exact result (keeps repeated computations equal) instead of a fresh constant per operation
+	relaxedUF   bool // rounding error as an uninterpreted function of the exact result (keeps repeated computations equal) instead of a fresh constant per operation
 }
 
 var dumpCtr int
@@ -2481,7 +2481,7 @@ func (e *Exec) convert(x Value, from, to types.Type) Value {
 			if v.FromInt != nil && v.FromInt.W == 64 && v.FromInt.Signed && w == 64 && s {
 				// float64(i) back to int64 is exact when |i| < 2^53
 				n := *v.FromInt
-				in := bAnd(iCmp(">", n, mkI64(-(1 << 53))), iCmp("<", n, mkI64(1<<53)))
+				in := bAnd(iCmp(">", n, mkI64(-(1<<53))), iCmp("<", n, mkI64(1<<53)))
 				if !in.IsC && e.provable(in) {
 					return n
 				}
